@@ -23,15 +23,15 @@ HUGE = {'C12': (600, 6000), 'C15': (300, 3000)}
 BIG_WORKERS = 8  # a large-field run holds a few hundred MB
 
 HIST = {
-    'C12': dict(profile='ownership', groups=['core', 'io', 'conv'], compile_groups=('core',), sweep='ownsweep,allocsweep,premain',
+    'C12': dict(profile='ownership', groups=['core', 'io', 'conv'], compile_groups=('core',), sweep='ownsweep,allocsweep,premain,postmain',
                 builds=[('rel-plain', 160000, 3000000), ('dbg-asan', 30000, 500000), ('rel-asan', 30000, 500000)]),
-    'C05': dict(profile='conversion', groups=['core', 'io', 'conv'], compile_groups=('conv',), sweep='convsweep,allocsweep,premain',
+    'C05': dict(profile='conversion', groups=['core', 'io', 'conv'], compile_groups=('conv',), sweep='convsweep,allocsweep,premain,postmain',
                 builds=[('rel-plain', 120000, 2500000), ('dbg-asan', 30000, 500000), ('rel-nobmi2', 60000, 1000000)]),
-    'C06': dict(profile='roundtrip', groups=['core', 'io', 'conv'], compile_groups=('io',), sweep='rtsweep,premain',
+    'C06': dict(profile='roundtrip', groups=['core', 'io', 'conv'], compile_groups=('io',), sweep='rtsweep,premain,postmain',
                 builds=[('rel-plain', 120000, 2500000), ('dbg-asan', 30000, 500000)]),
     'C07': dict(profile='portability', groups=['core', 'io', 'conv'], compile_groups=(),
                 builds=[('rel-plain', 120000, 2500000), ('dbg-asan', 30000, 500000)]),
-    'C15': dict(profile='ub', groups=['core', 'io', 'conv'], compile_groups=(), cross=True, valgrind=(2000, 20000), sweep='premain',
+    'C15': dict(profile='ub', groups=['core', 'io', 'conv'], compile_groups=(), cross=True, valgrind=(2000, 20000), sweep='premain,postmain',
                 builds=[('dbg-asan', 30000, 400000), ('rel-asan', 30000, 400000), ('dbg-plain', 30000, 400000),
                         ('rel-plain', 30000, 400000), ('rel-nobmi2', 30000, 400000)]),
 }
@@ -139,6 +139,8 @@ def check(prop, tier, seed):
                               ('one fixed plan per pool stack (construct, look up, copy, write, dump, load) and per conversion pair (construct, convert, look up, '
                                'convert back), executed by a static initialiser BEFORE main() in every worker process and again after main() started: no violation '
                                'then, and identical observations both times') if sweep == 'premain' else
+                              ('the same fixed plans executed inside main() and again AFTER main() has returned, from the destructor of a static object that was '
+                               'constructed before main(): the main thread\'s thread_local objects and later-constructed statics are gone by then') if sweep == 'postmain' else
                               'extents 1..9 (N=1), 1..6 (N=2), 1..4 (N=3), 1..3 (N=4), all combinations')
             for k, v in stats.items():
                 all_stats[k] = all_stats.get(k, 0) + v
@@ -341,7 +343,7 @@ def handle_violation(rep, prop, cfg, exes, disabled, seed, tier, key, b, r):
     key, d1 = checks.confirm(rep, rp, plan, key, 'build=%s run=%d' % (b, r['run']))
     if key is None:
         return
-    if (prop, key) in rep.known or key in rep.violations or key.startswith('premain'):
+    if (prop, key) in rep.known or key in rep.violations or key.startswith('premain') or key.startswith('postmain') or r.get('sweep') == 'postmain':
         small, used = plan, 0  # (a pre-main plan is fixed: there is nothing to minimise)
     elif rep.minimised >= rep.max_minimise:
         small, used = plan, 0  # many keys from one defect: the first few are minimised, the rest replay as found
